@@ -462,3 +462,22 @@ more("C02",
      note="This supersedes the earlier domain restriction on integer tiles (no all-zero leaf, values >= 4^depth). Depth 3 in quick: 2 cases, serial walk order only.")
 more("C14",
      text="Depth-0 pyramids (a single tile, leaf = root) are bound through tile_fits in TAN mode, Builder.cascade and the WTML.")
+
+
+# ---- fifth round of independently seeded changes
+more("C03",
+     text="The stages are also explored with os.getppid() = 1 (the dispatching process as a container's entry point), and with a multi_tan collection whose inputs are the HDUs of one "
+          "file listed once per HDU.")
+more("C04",
+     text="The deep-position loop (to depth 30) also looks up every second tile's centre (route 4 at depth).")
+more("C06",
+     text="One PyramidIO object outlives its output tree (or one row directory) and samples again; a sampler whose dtype differs from tile to tile (int16 counts / float32 with NaN) is "
+          "sampled into FITS with stored dtype and values compared; memoising samplers (which hand out the very same array when asked again) serve a second pyramid.")
+more("C12",
+     text="45 % of the pixel lookups lie within a fraction of a pixel .. a few pixels of the meridians lon = k pi/2 and pi/4 + k pi/2 (the centre cross and diagonals of the square); a "
+          "third of the deep lookups (depth 11-15) lie close to the equator, where tile edges bend most; four threads look up disjoint points at the same time with a microsecond "
+          "switch interval and must get the answers of sequential use.")
+more("C13",
+     text="The filter is also given as a callable object whose truth value is False (an empty list subclass with __call__): 'no filter' is None, nothing else.")
+more("C19",
+     text="Fault flavours include persistent OSError(EAGAIN) and OSError(EIO) (the errnos a retry loop would treat as transient).")
